@@ -1,0 +1,34 @@
+//go:build verif
+
+// Contracts for the contract-based verification in /verif (comment-only file).
+
+package specific
+
+//@ import drkey "github.com/scionproto/scion/pkg/drkey"
+//@ import slayers "github.com/scionproto/scion/pkg/slayers"
+//@ import addr "github.com/scionproto/scion/pkg/addr"
+
+//@ # ---- C39, protocol-specific derivation inputs (doc/cryptography/drkey.rst)
+//@ # level 1: [AsAs | destination ISD-AS (8 bytes, big endian) | 7 zero bytes] = one block
+//@ func serializeLevel1Input
+//@   props C39
+//@   requires len(buf) >= 16
+//@   requires (drkey.ZeroBlock[0] == 0 && drkey.ZeroBlock[1] == 0 && drkey.ZeroBlock[2] == 0 && drkey.ZeroBlock[3] == 0 && drkey.ZeroBlock[4] == 0 && drkey.ZeroBlock[5] == 0 && drkey.ZeroBlock[6] == 0 && drkey.ZeroBlock[7] == 0 && drkey.ZeroBlock[8] == 0 && drkey.ZeroBlock[9] == 0 && drkey.ZeroBlock[10] == 0 && drkey.ZeroBlock[11] == 0 && drkey.ZeroBlock[12] == 0 && drkey.ZeroBlock[13] == 0 && drkey.ZeroBlock[14] == 0 && drkey.ZeroBlock[15] == 0)
+//@   modifies buf[:]
+//@   ensures result == 16 && buf[0] == uint8(drkey.AsAs)
+//@   ensures buf[1] == uint8(uint64(dstIA)>>56) && buf[2] == uint8(uint64(dstIA)>>48) && buf[3] == uint8(uint64(dstIA)>>40) && buf[4] == uint8(uint64(dstIA)>>32) && buf[5] == uint8(uint64(dstIA)>>24) && buf[6] == uint8(uint64(dstIA)>>16) && buf[7] == uint8(uint64(dstIA)>>8) && buf[8] == uint8(uint64(dstIA))
+//@   ensures buf[9] == 0 && buf[10] == 0 && buf[11] == 0 && buf[12] == 0 && buf[13] == 0 && buf[14] == 0 && buf[15] == 0
+
+//@ # level 2: [derivation type | host address type (4 bits) | packed address | zero padding to a block multiple]
+//@ func (Deriver).serializeLevel2Input
+//@   props C39
+//@   requires len(input) >= 32
+//@   # the exported variable ZeroBlock still holds zeros
+//@   requires (drkey.ZeroBlock[0] == 0 && drkey.ZeroBlock[1] == 0 && drkey.ZeroBlock[2] == 0 && drkey.ZeroBlock[3] == 0 && drkey.ZeroBlock[4] == 0 && drkey.ZeroBlock[5] == 0 && drkey.ZeroBlock[6] == 0 && drkey.ZeroBlock[7] == 0 && drkey.ZeroBlock[8] == 0 && drkey.ZeroBlock[9] == 0 && drkey.ZeroBlock[10] == 0 && drkey.ZeroBlock[11] == 0 && drkey.ZeroBlock[12] == 0 && drkey.ZeroBlock[13] == 0 && drkey.ZeroBlock[14] == 0 && drkey.ZeroBlock[15] == 0)
+//@   modifies input[:]
+//@   let l = slayers.packedLen(host)
+//@   ensures (result1 == nil) == slayers.packedOK(host)
+//@   ensures result1 == nil ==> result0 == ite(l == 16, 32, 16)
+//@   ensures result1 == nil ==> input[0] == uint8(derType) && input[1] == uint8(slayers.packedType(host)) & 0xF
+//@   ensures result1 == nil ==> forall j int :: 0 <= j && j < l ==> input[2+j] == slayers.packedByte(host, j)
+//@   ensures result1 == nil ==> forall k int :: 2 + l <= k && k < result0 ==> input[k] == 0
